@@ -7,6 +7,7 @@ import Spydr.Edif.LemmasLex
 import Spydr.Edif.LemmasBits
 import Spydr.Edif.LemmasPins
 import Spydr.Edif.LemmasNets
+import Spydr.Edif.LemmasNet
 namespace Spydr.Edif.C05
 open Spydr.Edif
 
@@ -113,6 +114,34 @@ theorem resolve_ci_sound (sibs : List Data) (spelling : Str) (i : Nat) (h : find
 
 example : findIdent [[(kIDENT, .str "Work".toList)], [(kIDENT, .str "LIB2".toList)]] "lib2".toList = some 1 ∧
     findIdent [[(kIDENT, .str "Work".toList)]] "other".toList = none := by decide
+
+/-- the `design` construct selects the top cell: `(design name (cellRef C (libraryRef L)))`, `C`/`L` any
+    spellings that resolve (case-insensitively) to cell `di` of library `li`, yields a top instance
+    carrying both identifier and original name and referencing exactly that cell (as repaired) -/
+theorem design_selects_top (rlibs : List CLib) (tdata : Data) (ident name did lid : Str) (li di : Nat) (l' : CLib)
+    (hn : NamedOK tdata ident name) (hvd : validIdentTok did = true) (hvl : validIdentTok lid = true)
+    (hfl : findIdent (rlibs.map (·.data)) lid = some li) (hl : rlibs[li]? = some l')
+    (hfd : findIdent (l'.defs.map (·.data)) did = some di) :
+    ∃ nm, nameSExp tdata "top instance" = .ok nm ∧
+      parseDesign rlibs [A "design", nm, .list [A "cellref", .atom did, .list [A "libraryref", .atom lid]]] =
+        .ok (readTop ident name li di) :=
+  design_roundtrip rlibs tdata ident name did lid li di l' hn hvd hvl hfl hl hfd
+
+/-- cellRef / libraryRef / viewRef of an instance, in any spelling that resolves, select cell `(li, di)` -/
+theorem viewRef_resolves (sc : Scope) (D : Data) (did lid : Str) (li di : Nat) (d' : CDef) (dv : Str)
+    (hvd : validIdentTok did = true) (hvl : validIdentTok lid = true) (hres : LibResolves sc lid li)
+    (hf : findIdent ((defsOfLib sc li).map (·.data)) did = some di)
+    (hd : (defsOfLib sc li)[di]? = some d') (hview : viewIdentOf d'.data = some dv) (hdv : lower dv = S "netlist") :
+    parseViewRef sc { data := D, pfx := [S "EDIF"] }
+      [A "viewref", A "netlist", .list [A "cellref", .atom did, .list [A "libraryref", .atom lid]]] = .ok (li, di) :=
+  parseViewRef_ok sc D did lid li di d' dv hvd hvl hres hf hd hview hdv
+
+/-- renamed objects carry both identifier and original name: `(rename id "orig")` on a fresh element -/
+theorem rename_carries_both (d0 : Data) (ident name : Str) (hc : checkEdifIdentifier ident = true)
+    (hs : name.all isStringChar = true) (hd0 : d0.has kNAME = false) :
+    ∃ m, parseRename { data := d0, pfx := [S "EDIF"] } [A "rename", .atom ident, qtok name] = .ok m ∧
+      nameOf m.data = some name ∧ identOf m.data = some ident :=
+  ⟨_, parseRename_ok d0 ident name hc hs hd0, nameOf_withName _ _ _, identOf_withName _ _ _⟩
 
 /-!
 ### edif_reader_spec
